@@ -30,7 +30,9 @@ theorem oidc_sub_total (td : String) (expected : List String) (tok : OidcTok) :
         have h3 : (split ':' sub)[3]? = some ((split ':' sub)[3]'(by omega)) := List.getElem?_eq_getElem (by omega)
         rw [h2, h3]
         simp only
-        split <;> simp
+        split
+        · simp
+        · split <;> simp
 
 /-- Before the fix the same holds only for a `sub` with at least four fields ... -/
 theorem oidc_sub_total_partial (td : String) (expected : List String) (sub : String) (aud : List String)
@@ -46,7 +48,9 @@ theorem oidc_sub_total_partial (td : String) (expected : List String) (sub : Str
       have h3 : (split ':' sub)[3]? = some ((split ':' sub)[3]'(by omega)) := List.getElem?_eq_getElem (by omega)
       rw [h2, h3]
       simp only
-      split <;> simp
+      split
+      · simp
+      · split <;> simp
 
 /-- ... and a verified token with `sub = "system:serviceaccount:x"` crashes the old code (finding F5). -/
 theorem oidc_crash_witness_unfixed :
@@ -82,10 +86,42 @@ theorem oidc_identity_from_sub {fixed : Bool} {td : String} {expected : List Str
         · rename_i ns sa h2 h3
           split at h
           · simp at h
-          · rename_i ha
-            simp only [AuthRes.ok.injEq] at h
-            exact ⟨sub, aud, ns, sa, rfl, by simpa using hp, by simpa using ha, h2, h3, h.symm⟩
+          · split at h
+            · simp at h
+            · rename_i ha
+              simp only [AuthRes.ok.injEq] at h
+              exact ⟨sub, aud, ns, sa, rfl, by simpa using hp, by simpa using ha, h2, h3, h.symm⟩
         · simp at h
+
+/-- Since the second fix an identity from OIDC always has a non-empty namespace and service account
+    (as from the Kubernetes JWT authenticator) ... -/
+theorem oidc_identity_fields_nonempty {td : String} {expected : List String} {sub : String} {aud : List String} {c : Caller}
+    (h : oidcClaims true td expected sub aud = .ok c) :
+    ∃ ns sa, (split ':' sub)[2]? = some ns ∧ (split ':' sub)[3]? = some sa ∧ ns ≠ "" ∧ sa ≠ "" ∧
+      c = { identities := [spiffeURI td ns sa] } := by
+  unfold oidcClaims at h
+  split at h
+  · simp at h
+  · split at h
+    · simp at h
+    · split at h
+      · rename_i ns sa h2 h3
+        split at h
+        · simp at h
+        · rename_i hne
+          split at h
+          · simp at h
+          · simp only [AuthRes.ok.injEq] at h
+            simp only [true_and, not_or] at hne
+            exact ⟨ns, sa, h2, h3, hne.1, hne.2, h.symm⟩
+      · simp at h
+
+/-- ... before it, `sub = "system:serviceaccount::"` was accepted as the identity `spiffe://td/ns//sa/`. -/
+theorem oidc_empty_fields_witness_unfixed :
+    oidcAuthenticate false "cluster.local" ["istio-ca"] (.claims "system:serviceaccount::" ["istio-ca"]) =
+      .ok { identities := ["spiffe://cluster.local/ns//sa/"] } ∧
+    oidcAuthenticate true "cluster.local" ["istio-ca"] (.claims "system:serviceaccount::" ["istio-ca"]) = .err := by
+  decide
 
 /-- The audience check is an intersection test. -/
 theorem checkAudience_iff (a e : List String) : checkAudience a e = true ↔ ∃ x, x ∈ a ∧ x ∈ e := by
@@ -422,6 +458,103 @@ theorem cert_total (k : PeerKind) (chains : List (List CertSAN)) : certAuthentic
     · split <;> simp
     · simp
   · simp
+
+/-! ### Which client certificates are validated (crypto/tls + PeerCertVerifier) -/
+
+/-- The roots a trust domain's pool holds are exactly those registered for that trust domain. -/
+theorem poolOf_mem {pools : List (String × List String)} {td : String} {roots : List String}
+    (h : poolOf pools td = some roots) (r : String) : r ∈ roots ↔ ∃ p ∈ pools, p.1 = td ∧ r ∈ p.2 := by
+  unfold poolOf at h
+  split at h
+  · simp only [Option.some.injEq] at h
+    subst h
+    simp only [List.mem_flatMap, List.mem_filter, beq_iff_eq]
+    constructor
+    · rintro ⟨p, ⟨hp, htd⟩, hr⟩; exact ⟨p, hp, htd, hr⟩
+    · rintro ⟨p, hp, htd, hr⟩; exact ⟨p, ⟨hp, htd⟩, hr⟩
+  · simp at h
+
+/-- A client certificate yields identities only if the handshake accepted it, which requires: exactly
+    one URI SAN, that URI is a SPIFFE identity `spiffe://td/ns/../sa/..`, the trust domain `td` has
+    registered roots, the leaf is within its validity period and chains - through presented, valid CA
+    certificates - to one of the roots registered FOR THAT TRUST DOMAIN.  The identities are then the
+    SAN values of that leaf. -/
+theorem tls_cert_root_scoped {pools : List (String × List String)} {peer : Option (PLeaf × List CACert)} {c : Caller}
+    (h : tlsCertAuthenticate pools peer = some (.ok c)) :
+    ∃ leaf ints u td ns sa roots, peer = some (leaf, ints) ∧ leaf.uris = [u] ∧ parseIdentity u = some (td, ns, sa) ∧
+      poolOf pools td = some roots ∧ chainsTo roots ints (ints.length + 1) leaf.issuer = true ∧
+      leaf.timeOk = true ∧ c.identities = leaf.values := by
+  unfold tlsCertAuthenticate at h
+  split at h
+  · simp at h
+  · rename_i hacc
+    cases peer with
+    | none => simp at h
+    | some pr =>
+      obtain ⟨leaf, ints⟩ := pr
+      simp only [Option.some.injEq] at h
+      have hc : c.identities = leaf.values := by
+        simp only [certAuthenticate, AuthRes.ok.injEq] at h
+        rw [← h]
+      have hv : verifyPeerCert pools leaf ints = true := by
+        cases hvv : verifyPeerCert pools leaf ints with
+        | true => rfl
+        | false => simp [tlsAccepts, hvv] at hacc
+      unfold verifyPeerCert at hv
+      split at hv
+      · rename_i u hu
+        split at hv
+        · simp at hv
+        · rename_i td ns sa hp
+          split at hv
+          · simp at hv
+          · rename_i roots hpool
+            simp only [x509Verify, Bool.and_eq_true] at hv
+            exact ⟨leaf, ints, u, td, ns, sa, roots, rfl, hu, hp, hpool, hv.2, hv.1.1, hc⟩
+      · simp at hv
+
+/-- A certificate whose issuer chain does not reach a root registered for the trust domain of its own
+    URI SAN is refused at the handshake - even if it chains to a root of ANOTHER trust domain. -/
+theorem tls_foreign_root_rejected (pools : List (String × List String)) (leaf : PLeaf) (ints : List CACert)
+    (u td ns sa : String) (roots : List String) (hu : leaf.uris = [u]) (hp : parseIdentity u = some (td, ns, sa))
+    (hpool : poolOf pools td = some roots) (hno : chainsTo roots ints (ints.length + 1) leaf.issuer = false) :
+    tlsCertAuthenticate pools (some (leaf, ints)) = none := by
+  simp [tlsCertAuthenticate, tlsAccepts, verifyPeerCert, hu, hp, hpool, x509Verify, hno]
+
+/-- No pool for the certificate's trust domain, or not exactly one URI SAN: refused. -/
+theorem tls_unknown_trust_domain_rejected (pools : List (String × List String)) (leaf : PLeaf) (ints : List CACert)
+    (u td ns sa : String) (hu : leaf.uris = [u]) (hp : parseIdentity u = some (td, ns, sa)) (hpool : poolOf pools td = none) :
+    tlsCertAuthenticate pools (some (leaf, ints)) = none := by
+  simp [tlsCertAuthenticate, tlsAccepts, verifyPeerCert, hu, hp, hpool]
+
+theorem tls_not_one_uri_rejected (pools : List (String × List String)) (leaf : PLeaf) (ints : List CACert)
+    (h : leaf.uris.length ≠ 1) : tlsCertAuthenticate pools (some (leaf, ints)) = none := by
+  have hv : verifyPeerCert pools leaf ints = false := by
+    unfold verifyPeerCert
+    split
+    · rename_i u hu; simp [hu] at h
+    · rfl
+  simp [tlsCertAuthenticate, tlsAccepts, hv]
+
+theorem tls_cert_total (pools : List (String × List String)) (peer : Option (PLeaf × List CACert)) :
+    tlsCertAuthenticate pools peer ≠ some .crash := by
+  unfold tlsCertAuthenticate
+  split
+  · simp
+  · cases peer with
+    | none => simp
+    | some pr => simp [certAuthenticate]
+
+/-- e.g. trust domain td1 trusts R1, td2 trusts R2: a certificate for spiffe://td1/... issued under R2
+    is refused although R2 is a registered root; the same certificate under R1 (also through a presented
+    intermediate) is accepted, and its DNS SAN comes along as an identity (recorded observation: DNS SANs
+    are not scoped by the trust domain). -/
+example :
+    tlsCertAuthenticate [("td1", ["R1"]), ("td2", ["R2"])] (some ({ issuer := "R2", sans := [("U", "spiffe://td1/ns/a/sa/b")] }, [])) = none ∧
+    tlsCertAuthenticate [("td1", ["R1"]), ("td2", ["R2"])]
+      (some ({ issuer := "I1", sans := [("U", "spiffe://td1/ns/a/sa/b"), ("D", "foo.com")] }, [{ name := "I1", issuer := "R1" }])) =
+      some (.ok { identities := ["spiffe://td1/ns/a/sa/b", "foo.com"] }) ∧
+    tlsCertAuthenticate [("td1", ["R1"])] none = some .err := by decide
 
 /-! ### Non-vacuity -/
 
